@@ -141,6 +141,11 @@ func resolveOp(c px.Context, text string) core.Result {
 			}
 			return core.Result{Out: out, Pred: "n/a", Tags: append(tags, "outside", "unprintable")}
 		}
+		// the type ParseType hands out must be usable: comparing it with itself must not fault (an unresolved TypeSet
+		// literal dereferences its nil version fields in Equals)
+		if e := syn.Safely(func() px.Value { _ = t.Equals(t, nil); return px.Undef }); e.Kind == "fault" {
+			return fail(out, "resolved-type-faults", text, "the type ParseType returned faults in Equals: "+e.Msg, tags)
+		}
 		if modelled {
 			out = "type " + sx.Str(s).Atom
 		}
@@ -203,6 +208,8 @@ func seqs(g *core.G, alphabet []string, n int, cur []string) {
 		seqs(g, alphabet, n, append(cur, t))
 	}
 }
+
+const tsBase0 = "pcore_version => '1.0.0', version => '1.0.0'"
 
 func gen(g *core.G) {
 	emit(g, "")
@@ -302,6 +309,29 @@ func gen(g *core.G) {
 		}
 	}
 
+	// TypeSet literals resolved as TYPES (not definitions): hash forms with and without the mandatory entries, types of every
+	// kind as members, nested inside other types
+	tsMembers := []string{"", "types => {A => Integer}", "types => {A => Object[{}]}", "types => {A => Object[{attributes => {a => Integer}}]}", "types => {A => {attributes => {a => Integer}}}",
+		"types => {A => Array[B], B => String}", "types => {a => Integer}", "types => 1", "types => {}", "references => {Ref => {name => 'X::Y', version_range => '1.x'}}", "name => 'T'",
+		"name => 'T', types => {A => Object[{}]}", "name_authority => 'http://x'", "pcore_uri => 'http://x'", "annotations => {}", "bogus => 1"}
+	for _, m := range tsMembers {
+		for _, base := range []string{tsBase0, "pcore_version => '1.0.0'", "version => '1.0.0'", ""} {
+			body := base
+			if m != "" {
+				if body != "" {
+					body += ", "
+				}
+				body += m
+			}
+			for _, t := range []string{"TypeSet[{" + body + "}]", "Typeset[{" + body + "}]", "Array[TypeSet[{" + body + "}]]", "Struct[{a => TypeSet[{" + body + "}]}]", "TypeSet[[{" + body + "}]]",
+				"TypeSet[{" + body + "}, 1]", "TypeSet[" + body + "]"} {
+				if !strings.Contains(t, "[]") {
+					emitR(g, t)
+				}
+			}
+		}
+	}
+
 	// (i-def) definitions: the init hashes of Object and TypeSet types with entries of every kind under every key (right and
 	// wrong), in each form a definition can take: bare, as the right side of `type X = ...`, with `[{...}]` and with `{...}`,
 	// and with a parent type in place of `Object`
@@ -392,6 +422,17 @@ func gen(g *core.G) {
 				emit(g, e[:i]+string(ins[g.Rng.Intn(len(ins))])+e[i:])
 			}
 			emit(g, e[:i]+" => "+e[i:])
+		}
+	}
+
+	// (ii') resolution of random type expressions from the grammar of all core constructors (mostly valid, some refused by
+	// the creators, some outside the resolver model) and of the valid-by-construction fragment: type text / issue code
+	for i := 0; i < 4000*g.Scale; i++ {
+		t := syn.GenTypeText(g.Rng, 1+g.Rng.Intn(3))
+		g.Emit("resolve " + sx.Str(t).Atom + " " + syn.OracleSexp(t) + syn.FloatOracle(t))
+		if i%2 == 0 {
+			t = syn.GenFragType(g.Rng, 1+g.Rng.Intn(3))
+			g.Emit("resolve " + sx.Str(t).Atom + " " + syn.OracleSexp(t) + syn.FloatOracle(t))
 		}
 	}
 
